@@ -613,7 +613,7 @@ func TestVerif_C08(t *testing.T) {
 	// collect less often (restored on exit)
 	defer debug.SetGCPercent(debug.SetGCPercent(2000))
 	maxLen := 3
-	lengths := []int{0, 1, 2, 3, 4, 5, 7, 8, 9, 15, 16, 17, 31, 32, 33, 255, 256, 257, 4095, 4096, 4097, 65537}
+	lengths := []int{0, 1, 2, 3, 4, 5, 7, 8, 9, 15, 16, 17, 31, 32, 33, 255, 256, 257, 720, 721, 1441, 4095, 4096, 4097, 65537} // 720 bytes = 360 words: the block after which Fletcher-32 implementations reduce their sums
 	if r.Thorough() {
 		maxLen = 4
 		lengths = append(lengths, 1<<20)
